@@ -220,7 +220,8 @@ class Layout:
                     pre_lines = [f"{c1()}{self.predocmark} {d}" if d else f"{c1()}{self.predocmark}" for d in docs]
             if not self.plain and rng.random() < self.comment_p:
                 c = rng.choice(["C", "c", "*", "!"])
-                out.append(c + " " + rng.choice(["zn1", "zn2 plain", "zn7 fixed comment"]))
+                # (also comment text that starts right after the comment character with `$`: commented-out code `c$$$`, keyword lines `C$Id$`)
+                out.append(c + rng.choice([" zn1", " zn2 plain", " zn7 fixed comment", "$$$ zn7 old = 1", "$$$" + c + "$$$ zn2 twice commented", "$Id: zn1 $", "$ zn7"]))
                 self.features.add("fixed_comment_" + c)
                 if rng.random() < 0.3:
                     out.append("")
@@ -250,7 +251,7 @@ class Layout:
                     lines[-1] += rng.choice(["  ! zn3 trailing", " ! zn3 it's trailing", "   !zn3"])  # a comment after a line that is continued
                     self.features.add("fixed_trailing_comment_on_continued_line")
                 if j < len(pieces) - 1 and not self.plain and rng.random() < 0.2:
-                    lines.append(rng.choice(["C interleaved zn8", "", "* zn9", "c", "!   zn1", "   ", "      ", "          ", " " * 30,
+                    lines.append(rng.choice(["C interleaved zn8", "", "* zn9", "c", "!   zn1", "   ", "      ", "          ", " " * 30, "c$$$ zn8 = 2", "C$$$c$$$ zn9", "*$ zn1",
                                              "       ! zn4 comment from column 8", " " * 14 + "! zn5 indented comment", "  ! zn6 comment from column 3"]))
                     self.features.add("fixed_cont_interleaved")
             if inline and (len(lines[-1]) + len(inline) <= 72 or not length_limit):
